@@ -44,9 +44,11 @@ def load_known():
 
 
 def key_matches(pattern, key):
-    """known-finding keys may end in '*' (prefix match) but are otherwise exact"""
-    if pattern.endswith("*"):
-        return key.startswith(pattern[:-1])
+    """known-finding keys are exact, or shell-style patterns with '*' standing for one
+    row name / class segment (never spanning the whole key)"""
+    if "*" in pattern:
+        import fnmatch
+        return fnmatch.fnmatchcase(key, pattern)
     return pattern == key
 
 
